@@ -100,7 +100,7 @@ OpenNested(a) ==
 
 Open(a) == IF phase = "closed" THEN OpenTop(a) ELSE OpenNested(a)
 
-(* ---- b.write(bs) / b.extend(bs.iter()).  a = [a |-> "write" | "extend", bs]                 *)
+(* ---- b.write(bs) / b.extend(iterator yielding bs).  a = [a |-> "write", bs] | [a |-> "extend", bs, it] *)
 (* Fits: all bytes are stored and counted.  Does not fit: CapacityError; the property allows   *)
 (* any prefix m <= remaining to have been stored and counted (the code stores all that fit);   *)
 (* the rest of the window beyond the counted bytes is unspecified, nothing outside changes.    *)
@@ -115,8 +115,14 @@ Accept(a, m, res, d) ==
   /\ ops' = ops + 1 /\ act' = a
   /\ UNCHANGED <<phase, kind, cap, len0, mem0, olen, done>>
 
+\* extend is given an iterator; a.it says what the iterator claims about its length (size_hint):
+\* "exact" (a slice iterator), "nohint" (no upper bound, iter::from_fn), "under" (claims exactly one byte
+\* fewer than it yields), "over" (claims exactly one byte more than it yields).  What extend must do depends
+\* only on the bytes the iterator actually yields (a.bs): the hint is not part of the contract.
+ItKinds == {"exact", "nohint", "under", "over"}
 Write(a) ==
   /\ phase = "open" /\ Bytes(a.bs)
+  /\ (a.a = "extend") => (a.it \in ItKinds)
   /\ IF Len(a.bs) <= Rem(Top)
      THEN Accept(a, Len(a.bs), "ok", TRUE)
      ELSE \E m \in 0..Rem(Top) : Accept(a, m, "cap", m = Rem(Top))
